@@ -8,5 +8,5 @@ command -v go >/dev/null
 test -f /opt/veriftools/tla/tla2tools.jar
 cat /repo/*/go.sum | sort -u > harness/go.sum
 mkdir -p harness/bin out evidence
-(cd harness && go build -tags verif -o bin/h ./cmd/h)
+(cd harness && for d in cmd/*/; do go build -tags verif -o bin/h-$(basename $d | tr a-z A-Z) ./$d; done)
 echo setup ok
